@@ -1,0 +1,27 @@
+//go:build verif
+
+package spec
+
+// Thin exported wrappers around unexported functions, compiled only with the `verif` build tag.
+// They exist so that an external verification harness can run the implementation and a formal
+// model on the same inputs. Nothing here changes behaviour; without the tag this file is not built.
+
+// VerifNormalizeURI exposes normalizeURI.
+func VerifNormalizeURI(refPath, base string) string { return normalizeURI(refPath, base) }
+
+// VerifNormalizeBase exposes normalizeBase.
+func VerifNormalizeBase(in string) string { return normalizeBase(in) }
+
+// VerifDenormalizeRef exposes denormalizeRef.
+func VerifDenormalizeRef(ref *Ref, originalRelativeBase, id string) Ref {
+	return denormalizeRef(ref, originalRelativeBase, id)
+}
+
+// VerifRebase exposes rebase (the base URL is parsed here, as denormalizeRef does).
+func VerifRebase(ref *Ref, base string, notEqual bool) (Ref, bool) {
+	v, err := parseURL(base)
+	if err != nil {
+		return *ref, false
+	}
+	return rebase(ref, v, notEqual)
+}
